@@ -17,6 +17,7 @@ package main
 //	nd <ct> <objs>   tm <ct> <objs>   mc <ct> <ct> <objs>
 //
 // ints: comma separated, "-" = none.  Functions: a<m>.<i> (x -> m*x+i elementwise), r (reverse), t (tail),
+// nl (nil slice), em (empty slice), fg<k> (filter > k, nil if none), ct (count), cn<c> (constant),
 // p<k> (prepend k), s (sum), d (duplicate), v1 v2 v3 (MakeVariadicParamN), w2 (MakeVariadicReturn2),
 // c1.<k> (CurryParam1), n<k> (MakeNumericReturnForVariadicParamReturnBool1).
 // Values: nil b:0|1 i:<kind>:<v> f:<kind>:h<n>|nan|nz s:<txt> ns:<txt> np:<ty> st:<ty>:<p> p:<ty>:<addr>
@@ -106,6 +107,28 @@ func c20Sum(s []int) int {
 
 func c20Fn(tok string) func(...int) []int {
 	switch {
+	// stages that yield nothing: a nil slice, an empty non-nil slice, a filter written with `var out []int` that is
+	// nil when nothing matches; and stages that produce a value from zero arguments (count, constant)
+	case tok == "nl":
+		return func(s ...int) []int { return nil }
+	case tok == "em":
+		return func(s ...int) []int { return []int{} }
+	case tok == "ct":
+		return func(s ...int) []int { return []int{len(s)} }
+	case strings.HasPrefix(tok, "cn"):
+		c := c20Atoi(tok[2:], 0)
+		return func(s ...int) []int { return []int{c} }
+	case strings.HasPrefix(tok, "fg"):
+		k := c20Atoi(tok[2:], 0)
+		return func(s ...int) []int {
+			var out []int
+			for _, x := range s {
+				if x > k {
+					out = append(out, x)
+				}
+			}
+			return out
+		}
 	// pass-through stages: they hand back the very slice they were given (sorted in place) or a view of it
 	case tok == "id":
 		return func(s ...int) []int { return s }
@@ -195,6 +218,9 @@ func c20Box(f func(...int) []int) func(...interface{}) []interface{} {
 			in[i] = a.(int)
 		}
 		out := f(in...)
+		if out == nil {
+			return nil // a stage that yields a nil slice yields a nil slice in its boxed form too
+		}
 		res := make([]interface{}, len(out))
 		for i, v := range out {
 			res[i] = v
